@@ -239,12 +239,12 @@ def recalc_case(nsp, grade=None, kmax=2, lookup=False):
                                            ("brake look-ahead time >= 0", S["ramp"] >= 0)], claims,
                     bounds={"posted speed sections": nsp, "links": 1, "curve length": f"each posted limit <= {kmax} velocity steps", "dt": f"{DT} s (concrete)", "train mass": f"{MASS} kg (concrete)",
                             "grade": f"grades {grade[0]} / {grade[1]} with a break at a symbolic position" if grade else "level", "speed-dependent resistance": "none (Davis B, aero = 0)", "lookup": "two successive lookups at symbolic positions x1 <= x (cached cursor carried over), train at rest"},
-                    expect_ok=True, max_paths=60000, loop_bound=14, timeout_ms=30000, check_side=False)
+                    expect_ok=True, max_paths=60000, loop_bound=14, timeout_ms=90000, check_side=False)
     return Case(f"recalc_sp{nsp}_{('grade%+g%+g' % tuple(grade)).replace('.', 'p') if grade else 'flat'}_k{kmax}", "C03", "W_Recalc", recv,
                 [Call("BrakingPoints::recalc", [("@state", None), ("@fric_brake", None), ("@train_res", None), ("@path_tpc", None)], recv_path="bp")], assume, claims,
                 bounds={"posted speed sections": nsp, "links": 1, "curve length": f"each posted limit <= {kmax} velocity steps", "dt": f"{DT} s (concrete)", "train mass": f"{MASS} kg (concrete)",
                         "grade": f"grades {grade[0]} / {grade[1]} with a break at a symbolic position" if grade else "level", "speed-dependent resistance": "none (Davis B, aero = 0)"},
-                expect_ok=True, max_paths=20000, loop_bound=12, timeout_ms=30000, check_side=False)
+                expect_ok=True, max_paths=20000, loop_bound=12, timeout_ms=90000, check_side=False)
 
 
 # ---------------------------------------------------------------- one control step of the speed-limited train
